@@ -99,10 +99,12 @@ class _Path:
         self._fs = fs
 
     def isdir(self, p):
-        return self._fs.norm(p) in self._fs.dirs
+        # as on a real POSIX system, the empty path names nothing (stat("") is ENOENT), it is not the working directory
+        return p != "" and self._fs.norm(p) in self._fs.dirs
 
     def isfile(self, p):
-        return self._fs.norm(p) in self._fs.files
+        # "file/" is not a file: a trailing separator demands a directory
+        return p != "" and not p.endswith("/") and self._fs.norm(p) in self._fs.files
 
     def exists(self, p):
         return self.isdir(p) or self.isfile(p)
@@ -130,7 +132,9 @@ class _OS:
 
     def listdir(self, p):
         d = self._fs.norm(p)
-        if d not in self._fs.dirs:
+        if p != "" and (d in self._fs.files or self._fs.through_a_file(d)):
+            raise NotADirectoryError(errno.ENOTDIR, "Not a directory", p)
+        if p == "" or d not in self._fs.dirs:
             raise FileNotFoundError(errno.ENOENT, "No such file or directory", p)
         pre = d.rstrip("/") + "/"
         return [q[len(pre):] for q in list(self._fs.files) + list(self._fs.dirs)
@@ -159,8 +163,25 @@ class SimFS:
         if self.on_fire:
             self.on_fire(kind)
 
+    def through_a_file(self, p: str) -> bool:
+        """True when a proper ancestor of the normalised path is a regular file (ENOTDIR on a real system)."""
+        d = posixpath.dirname(p)
+        while d not in ("/", ""):
+            if d in self.files:
+                return True
+            d = posixpath.dirname(d)
+        return False
+
     def open(self, path, mode="r", encoding=None, **kw):
         p = self.norm(path)
+        if path == "":
+            raise FileNotFoundError(errno.ENOENT, "No such file or directory", path)
+        if self.through_a_file(p):
+            raise NotADirectoryError(errno.ENOTDIR, "Not a directory", path)
+        if path.endswith("/") and p in self.files:
+            if "w" in mode:
+                raise IsADirectoryError(errno.EISDIR, "Is a directory", path)
+            raise NotADirectoryError(errno.ENOTDIR, "Not a directory", path)
         if "w" in mode:
             if posixpath.dirname(p) not in self.dirs:
                 raise FileNotFoundError(errno.ENOENT, "No such file or directory", path)
